@@ -51,7 +51,7 @@ Proof.
 Qed.
 
 (* The theorem.  Hypotheses as for numbers_cleanup_stream (kside: with a cleanup the suffix is not gz and does not end
-   with .gz, at most 100000 closed files), and the foreign-name condition of numbers_foreign_ignored. *)
+   with .gz), and the foreign-name condition of numbers_foreign_ignored. *)
 Theorem numbers_cleanup_foreign_ignored c crit k t0 off foreign ops :
   numkcfg c crit k -> Forall basic_op ops ->
   kside c k (nclosed (a_run None ops (snd (run (fst (step (sys0 t0 off) (OStart c))) ops)))) ->
@@ -103,7 +103,7 @@ Print Assumptions numbers_cleanup_foreign_ignored.
    closed, cur: the reader's view that the run would leave without cleanup; n plain files and m archives are kept. *)
 Theorem numbers_cleanup_foreign_dir c crit k n m t0 off foreign ops closed cur :
   numkcfg c crit k -> klim k = Some (n, m) -> Forall basic_op ops ->
-  sfx_ok (c_spec c) -> (N.of_nat (length closed) <= 100000)%N ->
+  sfx_ok (c_spec c) ->
   a_run None ops (snd (run (fst (step (sys0 t0 off) (OStart c))) ops)) = Some (closed, cur) ->
   NoDup (List.map fst foreign) ->
   (forall x, In x (List.map fst foreign) -> num_member c x = false) ->
@@ -123,12 +123,12 @@ Theorem numbers_cleanup_foreign_dir c crit k n m t0 off foreign ops closed cur :
         exists fl, file_of ff (gname c i) = Some fl /\ fdata fl = nth i closed [] /\ fgz fl = 1%N /\ fdir fl = false)
   /\ (exists fl, file_of ff (cname c) = Some fl /\ fdata fl = cur /\ fgz fl = 0%N /\ fdir fl = false).
 Proof.
-  intros Hcfg Hk Hb Hsfx HL Ea ND Hfor ff L lo mid.
+  intros Hcfg Hk Hb Hsfx Ea ND Hfor ff L lo mid.
   assert (Hside : kside c k (nclosed (a_run None ops (snd (run (fst (step (sys0 t0 off) (OStart c))) ops))))).
-  { rewrite Ea. unfold kside. rewrite Hk. cbn [nclosed]. split; assumption. }
+  { rewrite Ea. unfold kside. rewrite Hk. exact Hsfx. }
   destruct (numbers_cleanup_foreign_ignored c crit k t0 off foreign ops Hcfg Hb Hside ND Hfor) as (_ & _ & F2 & F3 & F4 & _).
   fold ff in F2, F3.
-  destruct (numbers_cleanup_properties c crit k n m t0 off ops closed cur Hcfg Hk Hb Hsfx HL Ea)
+  destruct (numbers_cleanup_properties c crit k n m t0 off ops closed cur Hcfg Hk Hb Hsfx Ea)
     as (P0 & Pn & _ & _ & _ & _ & Pp & Pa & _ & _ & Pc).
   set (f0 := wfs (s_w (fst (run (sys0 t0 off) (OStart c :: ops ++ [OStop]))))) in *. fold L lo mid in Pn, Pp, Pa.
   assert (Hrn : forall i, ~ In (rname c i) (List.map fst foreign)).
@@ -169,7 +169,7 @@ Example cleanup_foreign_hypotheses :
   /\ (forall n, In n (List.map fst ex_foreign_k) -> num_member ex_k n = false).
 Proof.
   split; [repeat split|]. split; [repeat constructor|]. split; [|split].
-  - split; [vm_compute; reflexivity | vm_compute; discriminate].
+  - vm_compute; reflexivity.
   - repeat (constructor; [vm_compute; intuition discriminate|]). constructor.
   - intros n Hn. vm_compute in Hn.
     repeat (destruct Hn as [<-|Hn]; [vm_compute; reflexivity|]). destruct Hn.
@@ -183,7 +183,9 @@ Proof.
   exact (proj1 (numbers_cleanup_foreign_ignored ex_k (CSize 3) (KLogGz 1 1) 0 0 ex_foreign_k ex_ops H1 H2 H3 H4 H5)).
 Qed.
 
-(* computed: the cleanup has removed r00000, compressed r00001 and kept r00002 - and nothing else *)
+(* computed: the cleanup has removed r00000, compressed r00001 and kept r00002 - and nothing else: a_r00001x.log,
+   a_r1backup.log, a_r1x.log and a_r2024-02-29_23-59-58.log, which the number filter took for numbered files before its
+   repair (and the cleanup would have counted, compressed or deleted), are left alone *)
 Example cleanup_foreign_instance_dir :
   ex_snap (fst (run (sys0f 0 0 ex_foreign_k) (OStart ex_k :: ex_ops ++ [OStop])))
   = [ (bs "a.log", 0%N, bs "q");
@@ -194,8 +196,11 @@ Example cleanup_foreign_instance_dir :
       (bs "a_r00001.log.gz", 1%N, bs "ef");
       (bs "a_r00001.log.gzip", 0%N, bs "n");
       (bs "a_r00001.txt", 0%N, bs "z");
+      (bs "a_r00001x.log", 0%N, bs "3");
       (bs "a_r00002.log", 0%N, bs "ghij");
-      (bs "a_r1.log", 0%N, bs "u");
+      (bs "a_r1backup.log", 0%N, bs "2");
+      (bs "a_r1x.log", 0%N, bs "1");
+      (bs "a_r2024-02-29_23-59-58.log", 0%N, bs "4");
       (bs "a_rCURRENT.log", 0%N, bs "k");
       (bs "a_rCURRENT.log.gz", 0%N, bs "s");
       (bs "a_rx.log", 0%N, bs "x");
